@@ -98,3 +98,13 @@ def simulate(ck, num, depth=9, laws=True):
                 docs.append(d)
     ck.extra['blockparse_simulated_documents'] = len(docs)
     return docs
+
+
+def texts(ck, n):
+    """Source texts of documents read by spec/BlockParse.tla on which model and implementation are known to agree (no finding class,
+    nothing unsettled): a systematic family of short documents rich in containers, laziness and look-alikes, for the checks that
+    judge laws on arbitrary inputs (C04, C05)."""
+    docs = documents(ck, 3, laws=False)
+    out = [d['src'] for d in docs if not (set(d['tags']) & FINDING_TAGS)]
+    ck.rng.shuffle(out)
+    return out[:n]
